@@ -13,3 +13,19 @@ package main
 //@   guarded [C19.log_opened_only_without_lease_error] getPartitionLog(_, _, $t, $p) by lookup(acquirePartitionLeases(_, _, _), {$t, $p}) is false
 //@   guarded [C19.flush_only_without_lease_error] Flush(getPartitionLog(_, _, $t, $p), _) by lookup(acquirePartitionLeases(_, _, _), {$t, $p}) is false
 //@   frame_only
+
+// acquirePartitionLeases: with leasing active, every (topic, partition) of the request that has NO entry in the
+// returned error map was held at acquisition (c19Held). Three loops: the request is flattened into the
+// partition list (every request partition occurs in it), AcquireAll answers per list position, and every
+// non-nil error is entered into the map under its partition.
+//@ spec func c19Covered(parts []metadata.PartitionID, t string, p int32) bool = exists k int :: 0 <= k && k < len(parts) && parts[k].Topic == t && parts[k].Partition == p
+//@ func (h *handler) acquirePartitionLeases
+//@   requires h.leaseManager != nil ==> h.leaseManager.lm != nil
+//@   ensures [C19.no_error_entry_means_held] h.leaseManager != nil ==> (forall ti int, pi int :: 0 <= ti && ti < len(req.Topics) && 0 <= pi && pi < len(req.Topics[ti].Partitions) && !has(result, mkstruct("metadata.PartitionID", req.Topics[ti].Topic, req.Topics[ti].Partitions[pi].Partition)) ==> c19Held(req.Topics[ti].Topic, req.Topics[ti].Partitions[pi].Partition))
+//@   loop 1 invariant -1 <= rangeindex__1 && rangeindex__1 < len(req.Topics)
+//@   loop 1 invariant forall ti int, pi int :: 0 <= ti && ti <= rangeindex__1 && 0 <= pi && pi < len(req.Topics[ti].Partitions) ==> c19Covered(partitions, req.Topics[ti].Topic, req.Topics[ti].Partitions[pi].Partition)
+//@   loop 2 invariant 0 <= rangeindex__1 && rangeindex__1 < len(req.Topics) && topic.Topic == req.Topics[rangeindex__1].Topic && sameSlice(topic.Partitions, req.Topics[rangeindex__1].Partitions) && -1 <= rangeindex__2 && rangeindex__2 < len(topic.Partitions)
+//@   loop 2 invariant forall ti int, pi int :: 0 <= ti && ti < rangeindex__1 && 0 <= pi && pi < len(req.Topics[ti].Partitions) ==> c19Covered(partitions, req.Topics[ti].Topic, req.Topics[ti].Partitions[pi].Partition)
+//@   loop 2 invariant forall pi int :: 0 <= pi && pi <= rangeindex__2 ==> c19Covered(partitions, topic.Topic, topic.Partitions[pi].Partition)
+//@   loop 3 invariant -1 <= rangeindex__3 && rangeindex__3 < len(results)
+//@   loop 3 invariant forall i int :: 0 <= i && i <= rangeindex__3 && results[i].Err != nil ==> has(errs, results[i].Partition)
